@@ -9,7 +9,8 @@ static void init(void) {
     pv_model_init();
     pv_inject_default();
     pv_model_bind_library();
-    pv_api_enable_features(7);
+    /* no enabling call here: the first section observes the process before any polyseed_enable_features call (the encrypted bit
+     * is supported by default); every later section starts by enabling all user features */
     g_out = malloc(POLYSEED_STR_SIZE);
     pv_info("rule", "seeds x passwords (empty, ASCII, accented NFC/NFD, Hangul, kana, fullwidth, compatibility ligatures, random Unicode, long) x KDF masks (all-00, all-FF, only the two "
                     "dropped bits, only byte 18, single bits, random; or the argument-mixing stand-in) x 1..5 applications: after every application the PBKDF2 monitor must have seen "
@@ -104,8 +105,30 @@ static bool apply(polyseed_data* s, pv_mseed* m, const char* pw, const char* pwc
     return ok;
 }
 
+static bool g_enabled;
+static void enable_all(void) { if (!g_enabled) { pv_api_enable_features(7); g_enabled = true; } }
+
+/* ---------------------------------------------------------------- a process that never configures features (first section; each shard is a fresh process) */
+static uint64_t n_default(void) { return 64; }
+static void run_default(uint64_t idx, pv_rng* rng) {
+    if (g_enabled) return;
+    g_rng = NULL;
+    pv_mseed m0; pv_gen_mseed(rng, 0, false, &m0);          /* no user features: nothing is enabled */
+    polyseed_data* s = pv_seed_from_model(&m0);
+    if (!s) { pv_violation("C12/load-failed", "no enabling call yet: %s", pv_mseed_str(&m0)); return; }
+    pv_mseed m = m0; const char* cls; char* pw = pv_gen_password(rng, &cls);
+    char* nf = pv_nfkd_alloc(pw); bool fits = strlen(nf) < POLYSEED_STR_SIZE; free(nf);
+    pv_w->kdf_mode = 0;
+    if (fits && apply(s, &m, pw, cls) && verify(s, &m, rng, "after 1 application, no enabling call in this process") && apply(s, &m, pw, cls)) {
+        const char* mm = pv_seed_mismatch(s, &m0, 0);
+        if (mm) pv_violation("C12/not-an-involution", "[no enabling call] %s", mm); else { PV_COUNT("default.cases_ok", 1); PV_DISTINCT("nontrivial", pv_mix(0xdef12, idx)); }
+    }
+    free(pw); pv_api_free(s);
+}
+
 static uint64_t n_crypt(void) { return pv_scaled(25000, 6000000); }
 static void run_crypt(uint64_t idx, pv_rng* rng) {
+    enable_all();
     g_rng = rng;
     g_cur_secret = NULL; g_cur_pw = NULL;
     pv_mseed m0; pv_gen_mseed(rng, 7, true, &m0);
@@ -155,6 +178,7 @@ done:
 /* canonically equivalent spellings give the same result */
 static uint64_t n_equiv(void) { return pv_scaled(6000, 1500000); }
 static void run_equiv(uint64_t idx, pv_rng* rng) {
+    enable_all();
     pv_mseed m; pv_gen_mseed(rng, 7, true, &m);
     const char* cls; char* pw = pv_gen_password(rng, &cls);
     char* a = pv_nfc_alloc(pw); char* b = pv_nfkd_alloc(pw);
@@ -204,7 +228,7 @@ static bool conc_iter(pv_rng* r, int iter, void* user, char* err, size_t errsz) 
 }
 static uint64_t n_conc(void) { return pv_scaled(3, 100); }
 static void run_conc(uint64_t idx, pv_rng* rng) {
-    (void)idx; pv_w->kdf_mode = 0;
+    (void)idx; pv_w->kdf_mode = 0; enable_all();
     enum { NT = 8, IT = 2000 }; static pv_conc_result res[NT];
     uint64_t seed = pv_rand64(rng);
     pv_concurrent(NT, IT, seed, 35, conc_iter, NULL, res);
@@ -212,6 +236,6 @@ static void run_conc(uint64_t idx, pv_rng* rng) {
 }
 
 int main(int argc, char** argv) {
-    static const pv_section secs[] = { { "crypt", n_crypt, run_crypt }, { "equivalent", n_equiv, run_equiv }, { "concurrent", n_conc, run_conc } };
-    return pv_main(argc, argv, "C12", secs, 3, init, NULL);
+    static const pv_section secs[] = { { "default", n_default, run_default }, { "crypt", n_crypt, run_crypt }, { "equivalent", n_equiv, run_equiv }, { "concurrent", n_conc, run_conc } };
+    return pv_main(argc, argv, "C12", secs, (int)(sizeof secs / sizeof *secs), init, NULL);
 }
